@@ -282,7 +282,7 @@ theorem table_complete : complete table = true := by decide +kernel
 
 /-- Every concrete class's `_check_equality`, `_compute_hash`, `__eq__`, `__hash__` and `__init__`
 chain were of the understood shapes (no `unknown`), each compared field is compared against the same
-field of `other`. -/
+field of `other`, and array hashes are by value (`hash_array` casts real dtypes to float64). -/
 theorem eq_hash_understood : (table.all fun e => e.abstract || understood e) = true := by
   decide +kernel
 
@@ -301,6 +301,12 @@ theorem eq_fields_are_stored_params :
 
 /-- Array parameters handed to `Matrix.__init__` through its kwargs are set read-only there. -/
 theorem kwargs_params_frozen : (table.all frozenOk) = true := by decide +kernel
+
+/-- Lazily cached arrays (`_array` of implicit classes, computed `_eigval`, computed `_lu_and_piv`)
+and constructor arrays stored outside the kwargs loop (`InverseLUFactoredSquareMatrix`, eigenvalues of
+the eigendecomposed classes, `unreg_eigval`) are set read-only by an explicit statement where they are
+filled / stored. -/
+theorem cached_and_stored_arrays_frozen : (table.all frozenExplicitOk) = true := by decide +kernel
 
 /-- All of the above: the generated table satisfies the soundness predicate. -/
 theorem table_sound : Sound table = true := by decide +kernel
@@ -334,19 +340,19 @@ example : (table.filter fun e => !e.abstract && !e.eqFields.isEmpty && !e.hashFi
 `lower`) and the pre-fix symmetric low-rank class (ignore `_sign`) are rejected. -/
 example : soundEntry
     { name := "InverseTriangularMatrix", abstract := false, mro := [], hashFrom := "", eqFrom := "",
-      dunderOk := true, hashFields := ["_inverse_array"], eqFields := ["_inverse_array"],
+      dunderOk := true, hashByValue := true, hashFields := ["_inverse_array"], eqFields := ["_inverse_array"],
       eqSameName := true, unknown := false, unknownWhy := "",
-      params := ["_shape", "_inverse_array", "_lower"], caches := ["_hash"], frozen := ["_inverse_array"],
+      params := ["_shape", "_inverse_array", "_lower"], caches := ["_hash"], frozen := ["_inverse_array"], frozenExplicit := [],
       aliases := [], handAliases := [] } = false := by decide +kernel
 
 example : soundEntry
     { name := "SymmetricLowRankUpdateMatrix", abstract := false, mro := [], hashFrom := "", eqFrom := "",
-      dunderOk := true, hashFields := ["factor_matrix", "square_matrix", "inner_square_matrix"],
+      dunderOk := true, hashByValue := true, hashFields := ["factor_matrix", "square_matrix", "inner_square_matrix"],
       eqFields := ["factor_matrix", "symmetric_matrix", "inner_symmetric_matrix"],
       eqSameName := true, unknown := false, unknownWhy := "",
       params := ["factor_matrix", "symmetric_matrix", "inner_symmetric_matrix", "left_factor_matrix",
         "right_factor_matrix", "square_matrix", "inner_square_matrix", "_capacitance_matrix", "_sign", "_shape"],
-      caches := ["_hash"], frozen := [],
+      caches := ["_hash"], frozen := [], frozenExplicit := [],
       aliases := [], handAliases := [("factor_matrix", "left_factor_matrix"),
         ("symmetric_matrix", "square_matrix"), ("inner_symmetric_matrix", "inner_square_matrix")] } = false := by
   decide +kernel
@@ -354,9 +360,9 @@ example : soundEntry
 /-- A hash that reads an attribute equality does not compare is rejected. -/
 example : soundEntry
     { name := "DiagonalMatrix", abstract := false, mro := [], hashFrom := "", eqFrom := "",
-      dunderOk := true, hashFields := ["diagonal", "_hash_salt"], eqFields := ["diagonal"],
+      dunderOk := true, hashByValue := true, hashFields := ["diagonal", "_hash_salt"], eqFields := ["diagonal"],
       eqSameName := true, unknown := false, unknownWhy := "",
-      params := ["_shape", "_diagonal", "_hash_salt"], caches := [], frozen := ["_diagonal"],
+      params := ["_shape", "_diagonal", "_hash_salt"], caches := [], frozen := ["_diagonal"], frozenExplicit := [],
       aliases := [("diagonal", "_diagonal")], handAliases := [] } = false := by decide +kernel
 
 /-- The hypotheses of the generic theorems are satisfiable: the `InverseTriangularMatrix` entry of
